@@ -19,7 +19,7 @@ RULE = ("postconditions on SegmentTensor.intersect, PolygonTensor.intersect and 
         "'no spurious point'. Workload: all lattice segment pairs of {-2..2}^2 (quick: a residue class, thorough: all), polygon zoo x lattice lines and "
         "segments, cuboids/tetrahedra x lattice lines and segments incl. hits through vertices and edges, parallel faces, misses, collections. "
         "Non-trivial: every judged call; distinct by operand digest."
-        " Also: solids and polygons moved after a first query, with the lines moved along and the old lines; 3D segment collections in which skew pairs and meeting pairs are mixed and the supporting lines cross inside, at the end of or beyond the end of either segment; the lattice configurations magnified to 8-, 16- and 32-bit integer pixel coordinates.")
+        " Also: solids and polygons moved after a first query, with the lines moved along and the old lines; 3D segment collections in which skew pairs and meeting pairs are mixed and the supporting lines cross inside, at the end of or beyond the end of either segment; the lattice configurations magnified to 8-, 16- and 32-bit integer pixel coordinates; segment collections with two collection axes all of whose members are hit (and with one miss).")
 SHARDS = (8, 16)
 REQUIRED = ["segment.intersect", "polygon.intersect", "polyhedron.intersect"]
 ASSUMPTIONS = ["operands must be exactly representable (integers / dyadic) for the exact reference; other calls are skipped and counted"]
